@@ -33,7 +33,7 @@ def plan(tier, seed):
         eng = build.binpath("asan" if asan else "opt", "texel")
         if quick:
             caps = ["--cap-3", 10, "--cap-light", 6, "--cap-mid", 5, "--cap-heavy", 4] if asan else ["--cap-3", 14, "--cap-light", 9, "--cap-mid", 8, "--cap-heavy", 6]
-            args = ["--cases", 20 if asan else 60, "--solve-limit", 3, "--budget", 300000, "--answer-ms", 60000]
+            args = ["--cases", 30 if asan else 110, "--solve-limit", 3, "--budget", 300000, "--answer-ms", 60000]
             cls = classes_for(i, seed, 1 if asan else 3)
         else:
             caps = ["--cap-3", 12, "--cap-light", 8, "--cap-mid", 7, "--cap-heavy", 5] if asan else ["--cap-3", 14, "--cap-light", 12, "--cap-mid", 10, "--cap-heavy", 9]
